@@ -760,7 +760,25 @@ impl<'a> Run<'a> {
         let goes_to_admission = self.cfg.focus == "C06" && !readable && state != KeyState::ExpiredUnswept && !matches!(op, WriteOp::Delete { .. }) && op.value().is_some();
         let decision = if goes_to_admission { self.observe_before_admission(op) } else { None };
         if self.stop { return; }
+        // now and then the clock moves INSIDE the call: right after the first reading the calling thread takes (the time-to-live of a readable
+        // key is applied on the caller's thread). Any reading taken during the call is a legitimate "now"; what must not happen is that the
+        // store and the sweeper's index end up with different deadlines for the key.
+        let t0 = self.now();
+        let jump_by = match op {
+            WriteOp::Upsert { ttl: Some(ttl), .. } if readable && !self.at_deadline(key) && !self.noise_on && !self.cfg.hit_only
+                && matches!(self.cfg.focus, "C03" | "C08" | "C09" | "C10") && self.rng.chance(1, 3) => {
+                let delta = *self.rng.pick(&[1u64, 600_000_000, NS, 2_500_000_000]);
+                if ttl.as_nanos() > delta as u128 + NS as u128 && (t0 as u128 + delta as u128) < 17_000_000_000u128 * NS as u128 { Some(delta) } else { None }
+            }
+            _ => None,
+        };
+        if let Some(delta) = jump_by { rt::arm_clock_jump(1, delta); }
         let issued = issue(&self.sut.cache, op);
+        let jumped = if jump_by.is_some() { rt::disarm_clock_jump() } else { false };
+        if jumped {
+            self.sut.sweeps_at_last_clock_change.store(recorder().sweeps(), Ordering::SeqCst);
+            self.counts.inc("clock_moved_between_two_readings_inside_an_upsert");
+        }
         let status = match self.wait(issued, op, state) { Some(status) => status, None => return };
         if let Some(decision) = decision { self.judge_admission(op, &decision, status); if self.stop { return; } }
         match op {
@@ -792,7 +810,15 @@ impl<'a> Run<'a> {
                     let entry = self.model.get_mut(&key).unwrap();
                     let had_ttl = entry.expiry.is_some();
                     if let Some(value) = value { entry.value = *value; }
-                    if *remove_ttl { entry.expiry = None; } else if let Some(ttl) = ttl { entry.expiry = Some(now + ttl.as_nanos()); }
+                    if *remove_ttl { entry.expiry = None; } else if let Some(ttl) = ttl {
+                        entry.expiry = Some(now + ttl.as_nanos());
+                        if jumped {
+                            // the deadline is "a reading taken during the call" + ttl: learn which one from the store
+                            let (lo, hi) = (t0 as u128 + ttl.as_nanos(), now + ttl.as_nanos());
+                            self.lookups += 1;
+                            if let Some((_, Some(seen))) = read_ref(&self.sut.cache, key) { if seen >= lo && seen <= hi { entry.expiry = Some(seen); } }
+                        }
+                    }
                     let has_ttl = entry.expiry.is_some();
                     if let Some(weight) = weight { entry.weight = *weight; }
                     else if let Some(value) = value { entry.weight = computed_weight(mode, *value, ttl.is_some()); }
@@ -867,6 +893,7 @@ impl<'a> Run<'a> {
                 }
             }
         }
+        if jumped && !self.stop { self.after_clock_moved(t0); }
     }
 
     /// After a write, every third time (always for focus C02): all seven read variants back to back on the written key.
@@ -993,6 +1020,11 @@ impl<'a> Run<'a> {
         if before as u128 + delta_ns as u128 > 17_900_000_000u128 * NS as u128 { return; }
         self.sut.advance(delta_ns);
         self.sig = fnv_step(self.sig, 0xADu64 ^ (delta_ns.min(4 * NS)));
+        self.after_clock_moved(before);
+    }
+
+    /// What follows every movement of the clock: probes at exact deadlines, two completed sweeps, deadlines counted.
+    fn after_clock_moved(&mut self, before: u64) {
         let at_deadline: Vec<u64> = self.model.keys().copied().filter(|k| self.at_deadline(*k)).collect();
         for key in at_deadline { self.probe_at_deadline(key); }
         if let Err(waited) = self.sut.settle() { self.stuck("sweeps after a clock change", waited); return; }
@@ -1307,6 +1339,8 @@ impl<'a> Run<'a> {
 
 pub fn last_shape(last: &J) -> String {
     if let J::Obj(map) = last {
+        // a step that wraps a write (an iterator interrupted by a write, a delete with the worker held followed by an upsert) is named after that write
+        for inner in ["after_the_first_item", "then"] { if let Some(write) = map.get(inner) { if matches!(write, J::Obj(_)) { return last_shape(write); } } }
         let op = match map.get("op") { Some(J::Str(s)) => s.clone(), _ => "?".into() };
         if op == "put_or_update" {
             let mut parts = Vec::new();
